@@ -107,9 +107,9 @@ def showResult (h : Heap) (r : Result Exact.QS Exact.Prob) : String :=
 def showWorld (w : W) : String :=
   let sim := match w.sim with
     | none => "N"
-    | some s => s!"{showRef s.cbits}|{showState s.st}|{showProb s.prob}|{s.opIndex}|" ++
-        (match s.mres with | none => "N" | some l => showList l) ++ s!"|{s.mind}|" ++
-        (match s.form with | .qobj => "q" | .tensor => "t" | .matrix => "m" | .garbage => "g")
+    | some s => s!"{showRef s.cbits}|{showState s.f.st}|{showProb s.f.prob}|{s.f.opIndex}|" ++
+        (match s.f.mres with | none => "N" | some l => showList l) ++ s!"|{s.f.mind}|" ++
+        (match s.f.form with | .qobj => "q" | .tensor => "t" | .matrix => "m" | .garbage => "g")
   "W!heap=" ++ ";".intercalate (w.heap.cells.map showList) ++ "!sim=" ++ sim ++
     "!comp=" ++ showArgs w.comp.args ++ s!"/{w.comp.phase}" ++
     "!proc=" ++ (match w.proc.pulses with | none => "N" | some t => showTok t) ++ s!"/{w.proc.phase}"
@@ -137,9 +137,9 @@ def execCall (cfg : Cfg) (mode : Mode) (c : Circuit) (inits : List Exact.QS) (ph
     match w.sim with
     | none => (w, "Eattr!")
     | some s0 =>
-      match getter cfg s0 with
-      | (s, none) => ({ w with sim := some s }, "G!" ++ showState s.st)
-      | (s, some e) => ({ w with sim := some s }, "E" ++ errName e ++ "!")
+      match getter cfg s0.f with
+      | (f, none) => ({ w with sim := some { s0 with f := f } }, "G!" ++ showState f.st)
+      | (f, some e) => ({ w with sim := some { s0 with f := f } }, "E" ++ errName e ++ "!")
   | .query => (w, "Q")
   | .compile circ args =>
     let (cp, tok) := compile cfg phases w.comp circ args
@@ -176,7 +176,7 @@ def hist (fs : List String) : Option String := do
   if !c.constructible cfg then pure "err value" else
   let w0 : W := { heap := ⟨lists⟩, sim := none, rng := rng, log := [],
                   comp := defaultCompiler, proc := { pulses := none, phase := 0 } }
-  let isGarbage (w : W) : Bool := match w.sim with | some s => s.form == .garbage | none => false
+  let isGarbage (w : W) : Bool := match w.sim with | some s => s.f.form == .garbage | none => false
   let (w, outs) := calls.foldl (fun (acc : W × List String) call =>
       let (w', o) := execCall cfg mode c inits phases acc.1 call
       let o := o ++ "!H" ++ ";".intercalate ((w'.heap.cells.take lists.length).map showList)
